@@ -131,25 +131,51 @@ class Oracle:
         return out
 
 
-def infer_psize(n, log):
-    """partition size actually used by the code, from the number of partitions in the task graph and
-    the lengths of the partition results that were produced"""
+def pairs_of(r):
+    """the (photon density, angle) results inside a partition result, in order, whatever container the implementation wraps them
+    in: [(d, a), ...] (the pinned code), (offset, [(d, a), ...]), arrays of shape (k, 2), ...  A result pair is a 2-sequence of
+    real scalars; other scalars (offsets, counts) are skipped."""
+    def scalar(x):
+        return isinstance(x, (float, int, np.floating, np.integer)) and not isinstance(x, bool) or (isinstance(x, np.ndarray) and x.ndim == 0)
+
+    out = []
+
+    def walk(x):
+        if isinstance(x, np.ndarray) and x.ndim == 2 and x.shape[1] == 2:
+            out.extend((row[0], row[1]) for row in x)
+        elif isinstance(x, (list, tuple, np.ndarray)):
+            if len(x) == 2 and scalar(x[0]) and scalar(x[1]):
+                out.append((x[0], x[1]))
+            else:
+                for y in x:
+                    walk(y)
+    walk(r)
+    return out
+
+
+LENS = {}     # (kernel stand-in?, n, forced partition size) -> segmentation observed in an execution where every partition finished
+
+
+def infer_lens(n, log, hint=None):
+    """the consecutive segmentation the code used: lengths of the finished partitions as observed; a partition that did not finish
+    (failure, or not started after one) gets the length it had in a clean execution of the same batch (`hint`).  None if the
+    observations do not add up to a segmentation of n."""
     P = log.nparts or 1
-    lens = {p: len(r) for k, p, r in log.events if k == "Finish"}
-    if P <= 1:
-        return max(n, 1)
-    for p, ln in lens.items():
-        if p < P - 1:
-            return ln
-    if P - 1 in lens and (n - lens[P - 1]) % (P - 1) == 0:
-        return (n - lens[P - 1]) // (P - 1)
-    if -(-n // 100) == P:
-        return 100
-    return -(-n // P)
+    lens = {p: len(pairs_of(r)) for k, p, r in log.events if k == "Finish"}
+    unknown = [p for p in range(P) if p not in lens]
+    if unknown:
+        if hint is None or len(hint) != P:
+            return None
+        for p in unknown:
+            lens[p] = hint[p]
+    out = [int(lens[p]) for p in range(P)]
+    if sum(out) != n or any(x <= 0 for x in out):
+        return None
+    return out
 
 
 def execute(CphotAng, inputs, oracle, mode, fail=0, W=1, steps=None, order=None, shake=0, psize_override=None,
-            det_alt=525.0, obj=None):
+            det_alt=525.0, obj=None, _probe=False):
     """Run one batch and return its trace (list of TraceBatch events)."""
     import dask.bag as db
     beta, alt, E, lat, lon = inputs
@@ -185,17 +211,52 @@ def execute(CphotAng, inputs, oracle, mode, fail=0, W=1, steps=None, order=None,
         db.from_sequence = orig_from_sequence
     after = kernel_digest(obj)
     # ---- project to TraceBatch events
-    psize = psize_override or infer_psize(n, log)
+    direct = n > 0 and log.nparts is None
+    if direct:
+        # no task graph was handed to a scheduler: the batch was evaluated in the calling thread (an implementation may do that for
+        # any batch it likes - C10 speaks about results, not about dask).  In the model this is ONE partition holding all events,
+        # taken and finished (or failed) by the caller.
+        log.nparts = 1
+        log.add("Start", 0)
+        if raised is None:
+            d0, a0 = np.atleast_1d(result[0]), np.atleast_1d(result[1])
+            log.add("Finish", 0, list(zip(d0, a0)) if len(d0) == len(a0) else [])
+        else:
+            log.add("Fail", 0)
+    lkey = (CphotAng.run is standin_run, n, psize_override, det_alt)
+    if direct or n == 0:
+        lens = [n] if n else []
+    else:
+        lens = infer_lens(n, log, LENS.get(lkey))
+        if lens is None and lkey not in LENS and not _probe:
+            # learn the segmentation from a clean execution of the same batch (the cut points do not depend on failures)
+            execute(CphotAng, inputs, oracle, "ordered", 0, 1, order=[], psize_override=psize_override, det_alt=det_alt, _probe=True)
+            lens = infer_lens(n, log, LENS.get(lkey))
+        if lens is not None and raised is None and lkey not in LENS:
+            LENS[lkey] = lens
+    opaque = lens is None
+    if opaque:
+        # the partition results could not be read as result pairs that add up to the batch: the partition-level clauses of the model
+        # are skipped for this execution (one partition = the whole call), the outcome clauses - what C10 states - are judged
+        lens = [n]
+    offs = [sum(lens[:p]) for p in range(len(lens))]
     # dask's multi-process scheduler hands tasks out in batches of `chunksize` (default 6) per worker, so
     # the number of partitions taken and not yet finished is bounded by workers x 6, not by workers
     cap = int(W) * 6 if mode == "processes" else int(W)
     failset = sorted((set([fail] if isinstance(fail, int) else fail) - {0}) | set(oracle.raises))
-    ev = [{"kind": "Begin", "N": n, "PSize": int(psize), "W": cap, "Fail": [int(x) for x in failset]}]
-    for k, p, r in log.events:
+    ev = [{"kind": "Begin", "N": n, "Lens": [int(x) for x in lens], "W": cap, "Fail": [int(x) for x in failset]}]
+    if opaque:
+        ev.append({"kind": "Start", "p": 1})
+        if raised is None:
+            d0, a0 = np.atleast_1d(result[0]), np.atleast_1d(result[1])
+            ev.append({"kind": "Finish", "p": 1, "ids": oracle.ids(list(zip(d0, a0))) if len(d0) == len(a0) else [0]})
+        else:
+            ev.append({"kind": "Fail", "p": 1})
+    for k, p, r in ([] if opaque else log.events):
         if k == "Start":
             ev.append({"kind": "Start", "p": p + 1})
         elif k == "Finish":
-            ev.append({"kind": "Finish", "p": p + 1, "ids": oracle.ids(r, p * psize)})
+            ev.append({"kind": "Finish", "p": p + 1, "ids": oracle.ids(pairs_of(r), offs[p] if p < len(offs) else 0)})
         elif k == "Fail":
             ev.append({"kind": "Fail", "p": p + 1})
         elif k == "Errored":
@@ -212,7 +273,7 @@ def execute(CphotAng, inputs, oracle, mode, fail=0, W=1, steps=None, order=None,
         ev.append({"kind": "Raised", "exc": type(raised).__name__})
     ev.append({"kind": "Kernel", "same": before == after})
     ev.append({"kind": "End", "raised": raised is not None})
-    meta = {"mode": mode, "N": n, "W": W, "Fail": failset, "steps": steps, "order": order, "psize_override": psize_override,
+    meta = {"mode": mode, "N": n, "W": W, "Fail": failset, "steps": steps, "order": order, "psize_override": psize_override, "direct": direct, "opaque": opaque, "lens": lens[:12],
             "raised": None if raised is None else repr(raised)[:200]}
     for e in ev:
         e["_m"] = dict(meta, kind=e["kind"], p=e.get("p"))
@@ -249,10 +310,8 @@ def run(tier="quick", seed=0):
     use_repo()
     from nuspacesim.simulation.eas_optical import cphotang
     CphotAng = cphotang.CphotAng
-    if hasattr(cphotang, "ProgressBar"):
-        # the progress bar's timer thread costs 100 ms per compute() and floods stdout; it is output only
-        from dask.callbacks import Callback
-        cphotang.ProgressBar = type("QuietBar", (Callback,), {})
+    from nssverif.pipeline import quiet_progress
+    quiet_progress()
     pr = PropertyRun("C10", tier, seed)
     thorough = tier == "thorough"
 
